@@ -1,7 +1,6 @@
 //! Shared engine plumbing: evaluation of one generated case (fault-free run, then the faulted
 //! run derived from it), accumulation of statistics, known-finding classification.
 
-use std::cell::RefCell;
 use std::collections::{BTreeMap, BTreeSet};
 
 use serde_json::json;
@@ -11,25 +10,21 @@ use crate::gen::FaultReq;
 use crate::run::*;
 use crate::world::{CaseResult, Violation};
 
-thread_local! {
-    pub static LAST_PANIC_LOC: RefCell<String> = const { RefCell::new(String::new()) };
-}
+pub static LAST_PANIC_LOC: std::sync::Mutex<String> = std::sync::Mutex::new(String::new());
 
 /// Quiet panic hook: injected panics are silent; the location of every other panic is kept so
 /// that harness bugs can be told apart from panics raised by the crate under test.
 pub fn install_quiet_hook() {
     std::panic::set_hook(Box::new(|info| {
         let loc = info.location().map(|l| format!("{}:{}", l.file(), l.line())).unwrap_or_default();
-        let _ = LAST_PANIC_LOC.try_with(|c| {
-            if let Ok(mut b) = c.try_borrow_mut() {
-                *b = loc;
-            }
-        });
+        if let Ok(mut b) = LAST_PANIC_LOC.try_lock() {
+            *b = loc;
+        }
     }));
 }
 
 pub fn last_panic_loc() -> String {
-    LAST_PANIC_LOC.try_with(|c| c.borrow().clone()).unwrap_or_default()
+    LAST_PANIC_LOC.lock().map(|b| b.clone()).unwrap_or_default()
 }
 
 pub fn load_known(path: &str, prop: &str) -> Vec<String> {
@@ -258,4 +253,92 @@ pub fn concretise(case: &Case, freq: &[FaultReq], opts: &RunOpts) -> (Case, Opti
         Outcome::Hang => (faulted, None),
         Outcome::Done(r) => (faulted, Some(r)),
     }
+}
+
+
+/// Generic driver for the specialised generators (one value = one case): proptest runner with
+/// a fixed seed, accumulation of the measured non-trivial cases, shrinking, replay file.
+pub struct SimpleOut {
+    pub violations: Vec<Violation>,
+    pub nontrivial: bool,
+    pub hash: u64,
+    pub classes: Vec<String>,
+}
+
+pub fn drive<T, S, F>(prop: &str, engine: &str, cfg_name: &str, cases: u32, seed: u64, strat: S, known: &[String], replay_out: Option<&str>, run: F) -> (i32, serde_json::Value)
+where
+    T: serde::Serialize + Clone + std::fmt::Debug,
+    S: proptest::strategy::Strategy<Value = T>,
+    F: Fn(&T, bool) -> SimpleOut,
+{
+    use proptest::test_runner::{Config, RngAlgorithm, RngSeed, TestCaseError, TestError, TestRunner};
+    let state = std::cell::RefCell::new((0u64, BTreeSet::<u64>::new(), BTreeMap::<String, u64>::new(), Vec::<serde_json::Value>::new(), BTreeMap::<String, u64>::new(), false));
+    let mut runner = TestRunner::new(Config {
+        cases,
+        failure_persistence: None,
+        max_shrink_iters: 2000,
+        rng_algorithm: RngAlgorithm::ChaCha,
+        rng_seed: RngSeed::Fixed(seed),
+        ..Config::default()
+    });
+    let result = runner.run(&strat, |v| {
+        let out = run(&v, false);
+        let mut st = state.borrow_mut();
+        let mut bad = None;
+        for vio in &out.violations {
+            if known.iter().any(|k| k == &vio.sig) {
+                if !st.5 {
+                    *st.4.entry(vio.sig.clone()).or_insert(0) += 1;
+                }
+                continue;
+            }
+            if vio.props.iter().any(|p| p == prop) && bad.is_none() {
+                bad = Some(vio.sig.clone());
+            }
+        }
+        if !st.5 {
+            st.0 += 1;
+            for c in &out.classes {
+                *st.2.entry(c.clone()).or_insert(0) += 1;
+            }
+            if out.nontrivial && st.1.insert(out.hash) && st.3.len() < 4 {
+                st.3.push(serde_json::to_value(&v).unwrap());
+            }
+        }
+        match bad {
+            Some(sig) => {
+                st.5 = true;
+                Err(TestCaseError::fail(sig))
+            }
+            None => Ok(()),
+        }
+    });
+    let st = state.into_inner();
+    let mut code = 0;
+    let mut violation = serde_json::Value::Null;
+    match result {
+        Ok(()) => {}
+        Err(TestError::Fail(reason, v)) => {
+            code = 1;
+            let out = run(&v, true);
+            let sig = out.violations.iter().find(|x| x.props.iter().any(|p| p == prop)).map(|x| x.sig.clone()).unwrap_or(reason.message().to_string());
+            let replay = json!({"property": prop, "engine": engine, "configuration": cfg_name, "case": v, "signature": sig, "violations": out.violations});
+            if let Some(path) = replay_out {
+                let _ = std::fs::write(path, serde_json::to_string_pretty(&replay).unwrap());
+            }
+            violation = json!({"signature": sig, "replay": replay_out, "violations": out.violations});
+        }
+        Err(TestError::Abort(r)) => {
+            eprintln!("proptest aborted: {}", r);
+            code = 2;
+        }
+    }
+    let report = json!({
+        "prop": prop, "evaluations": st.0, "executions": st.0,
+        "nontrivial_hashes": st.1.iter().collect::<Vec<_>>(),
+        "classes": st.2, "foreign": {}, "known_hits": st.4, "samples": st.3, "hangs": 0, "harness_errors": 0, "harness_msgs": [],
+        "events": {},
+        "extra": {"engine": engine, "config": cfg_name, "seed": seed, "violation": violation},
+    });
+    (code, report)
 }
